@@ -591,6 +591,24 @@ pub fn run(rep: &mut Report) {
         y = ((y as f64 * ratio) as u64).max(y + 1);
     }
     rep.bound("year_scan", format!("{} years, geometric ratio {ratio}", ys.len()));
+    // order independence (depth-2 operation sequences on one thread): every parser on valid and invalid text, in every
+    // order (a parser that keeps scratch state - a cursor, a partially filled field array - between calls)
+    {
+        let texts: [(usize, &str); 24] = [
+            (0, "2017-01-14T00:31:55 UTC"), (0, "2016-12-31T23:59:60 UTC"), (0, "2017-13-14T00:31:55 UTC"), (0, "JD 2452312.5 TDB"), (0, "SEC 66312032.18493909 TDB"), (0, "2018-02-13T23:08:32.5+01:30"), (0, ""), (0, "1900-01-01"),
+            (1, "2017-01-14T00:31:55.0811200 TAI"), (1, "2017-02-30T00:00:00"), (1, "x"), (3, "1 d 2 h 3 min 4 s 5 ms 6 us 7 ns"), (3, "-0.5 d"), (3, "+01:30"), (3, "5 dogs"), (3, "-"),
+            (2, "%Y-%m-%dT%H:%M:%S"), (2, "%"), (2, "%Y%m%d%H%M%S%f%T%z%j%A%a%B%b%y%J%w"), (4, "GPST"), (4, "nope"), (5, "Monday"), (6, "December"), (6, "Dec"),
+        ];
+        crate::engine::order_pairs(rep, "c13.order", texts.len() as u64 + 8, |i, out| {
+            if (i as usize) < texts.len() {
+                let (p, t) = texts[i as usize];
+                j_total(p, t, out)
+            } else {
+                let k = (i as usize - texts.len()) % 8;
+                j_total2(["%Y-%m-%d %H:%M:%S", "%a, %d %b %Y %H:%M:%S", "%Y-%j", "%Y-%m-%d %j"][k % 4], ["2017-01-14 00:31:55", "Sat, 14 Jan 2017 00:31:55", "2017-014", "2017-02-31 060", "2017-01-14 014", "garbage", "2016-12-31 23:59:60", "Sun, 14 Jan 2017 00:31:55"][k], out)
+            }
+        });
+    }
     crate::engine::sweep(rep, "c13.year_scan", ys.len() as u64 * 4, |i, out| {
         let y = ys[(i / 4) as usize];
         match i % 4 {
@@ -663,6 +681,14 @@ pub fn run(rep: &mut Report) {
     }
     rep.bound("range_through_format_parse", rf.len() as u64);
     crate::engine::sweep(rep, "c13.range_fmt", rf.len() as u64, |i, out| j_range_fmt(rf[i as usize].0, rf[i as usize].1, out));
+    // second 60 on the last and the last-but-one day of June and December of EVERY year 1958..=2045 (the two year tables
+    // of the validity predicate, entry by entry), through every text form
+    let s60: Vec<(i32, u32, u32)> = (1958..=2045).flat_map(|y| [(y, 6u32, 30u32), (y, 6, 29), (y, 12, 31), (y, 12, 30)]).collect();
+    rep.bound("second_60_year_scan", s60.len() as u64 * 5);
+    crate::engine::sweep(rep, "c13.range[second-60-scan]", s60.len() as u64 * 5, |i, out| {
+        let (y, m, d) = s60[(i / 5) as usize];
+        j_range((i % 5) as usize, y, m, d, 23, 59, 60, out)
+    });
     crate::engine::sweep(rep, "c13.range", total, |i, out| {
         let mut r = i;
         let mut idx = [0usize; 7];
